@@ -20,6 +20,21 @@ def regenerate(ctx):
     return sk
 
 
+
+class _R:
+    def __init__(s, out): s.stdout = out; s.returncode = 124
+
+
+def run_to(ctx, cmd, timeout):
+    """runs a concd mode; a run that does not come back within the deadline yields its partial output plus a FAIL line"""
+    import subprocess
+    if getattr(ctx, 'conc_dead', False): return _R('FAIL skipped: an earlier run on a shared instance never returned')
+    try: return vf.sh(cmd, timeout=timeout)
+    except subprocess.TimeoutExpired as e:
+        so = e.stdout.decode() if isinstance(e.stdout, bytes) else (e.stdout or '')
+        ctx.conc_dead = True
+        return _R(so + f'\nFAIL the run `concd {" ".join(cmd[1:])}` did not finish within {timeout} s: some call on the shared instance never returns (deadlock)')
+
 def run(ctx):
     ok = vf.build_harness(ctx); ok = vf.build_coq(ctx) and ok
     vf.forbidden_scan(ctx)
@@ -29,12 +44,12 @@ def run(ctx):
     if not ok: vf.finish(ctx)
     conc = vf.harness_bin('concd')
     # (a) every method single-threaded under a watchdog
-    r = vf.sh([conc, 'single'], timeout=300)
+    r = run_to(ctx, [conc, 'single'], 300)
     bad = [l for l in r.stdout.split('\n') if l.startswith('FAIL')]
     ctx.evaluations += len(r.stdout.strip().split('\n'))
     if bad: vf.violation(ctx, 'single-threaded call on a fresh instance: ' + bad[0], {'mode': 'single', 'output': r.stdout[-1500:]})
     # (b) every method under a held generator lock: blocks exactly when the regenerated skeleton says it takes the lock
-    r = vf.sh([conc, 'blocks'], timeout=600)
+    r = run_to(ctx, [conc, 'blocks'], 600)
     obs = {}
     for l in r.stdout.strip().split('\n'):
         f = l.split(' ')
@@ -52,7 +67,7 @@ def run(ctx):
     if stuck: vf.violation(ctx, f'call {stuck[0]} did not complete (or returned a wrong result) after the generator lock was released', {'mode': 'blocks', 'output': r.stdout[-1500:]})
     # (c) stress: threads x mixed calls on distinct key objects sharing one instance
     t, n = (8, 400) if ctx.quick() else (16, 6000)
-    r = vf.sh([conc, 'stress', str(t), str(n)], timeout=3000)
+    r = run_to(ctx, [conc, 'stress', str(t), str(n)], 240 if ctx.quick() else 3000)
     lines = r.stdout.strip().split('\n')
     fails = [l for l in lines if l.startswith('FAIL')]
     done = [l for l in lines if l.startswith('OK thread')]
